@@ -71,6 +71,13 @@ impl Reporter {
         self.client_stats.values().copied().collect()
     }
 
+    /// Forget everything merged so far, as `processing_loop` does after each report
+    /// (verification builds only)
+    #[cfg(roughenough_verif)]
+    pub fn verif_clear(&mut self) {
+        self.client_stats.clear();
+    }
+
     pub fn receive_client_stats(&mut self) {
         let start = Instant::now();
         let mut num_processed = 0;
